@@ -15,6 +15,9 @@ BACKWARD = {'bfill', 'backfill', 'interpolate'}
 
 def check(ctx):
     M = ctx.M
+    from ..lib import discarded_results
+    ctx.sub(discarded_results, 'C07.S4', ('qstrader/trading/', 'qstrader/broker/', 'qstrader/data/', 'qstrader/statistics/'),
+            'what a run records at an instant is computed at that instant, from the objects the code actually updated')
     reach = M.reachable([RUN])
     ctx.floor('C07.S1', 'functions reachable from BacktestTradingSession.run', len(reach), 40)
     # ---- S1: which market-data readers are reachable
